@@ -231,7 +231,7 @@ func compareModelFont(f *type1.Font, mf *ref.MFont) []string {
 
 func runC08(r *rt.Runner) {
 	stdEnc := ref.MustStdEnc()
-	n := r.N(10000, 150000)
+	n := r.N(20000, 200000)
 	for k := 0; k < n; k++ {
 		r.Case("font", func(c *rt.C) {
 			rng := c.Rand()
